@@ -659,3 +659,48 @@ Qed.
 Lemma reach_by_path : forall h R n path r l,
   nth_error R n = Some r -> follow h r path = Some l -> reach h R l.
 Proof. intros h R n path r l N F. exists r. split; [eapply nth_error_In; eauto|eapply follow_rt; eauto]. Qed.
+
+(* insert_one (event without id): the event handed back unfolds to the same tree as the
+   event now stored under the new id *)
+Lemma find_bucket_set_bucket : forall st b bk nb,
+  find_bucket st b = Some bk -> b_id nb = b -> find_bucket (set_bucket st nb) b = Some nb.
+Proof.
+  unfold find_bucket. induction st as [|x st IH]; cbn; intros b bk nb F E; [discriminate|].
+  destruct (Z.eqb (b_id x) b) eqn:X.
+  - apply Z.eqb_eq in X. assert (Y : Z.eqb (b_id x) (b_id nb) = true) by (apply Z.eqb_eq; congruence).
+    rewrite Y. cbn. assert (Z.eqb (b_id nb) b = true) by (apply Z.eqb_eq; auto). now rewrite H.
+  - assert (Y : Z.eqb (b_id x) (b_id nb) = false) by (rewrite E; auto).
+    rewrite Y. cbn. rewrite X. eapply IH; eauto.
+Qed.
+
+Theorem insert_one_returns_stored : forall s b e s' r t d ks,
+  lookup (heap_of s) e = Some (Cell (TEv None t d) ks) ->
+  insert_one s b e = Ok (s', RRoot r) ->
+  exists bk' c tr i,
+    find_bucket (store s') b = Some bk' /\ In c (b_events bk') /\
+    content_of (heap_of s') c = Ok tr /\ content_of (heap_of s') r = Ok tr /\
+    option_map ctag (lookup (heap_of s') c) = Some (TEv (Some i) t d).
+Proof.
+  unfold insert_one, insert_core. intros s b e s' r t d ks L H. rewrite L in H.
+  destruct (deepcopy (heap_of s) e) as [[h1 c]| |] eqn:D1; cbn [bind fst snd] in H; try discriminate.
+  destruct (find_bucket (store s) b) as [bk|] eqn:F; try discriminate.
+  destruct (map_res (view h1) (b_events bk)) as [vs| |]; cbn [bind] in H; try discriminate.
+  destruct (set_id h1 c (Some (next_id vs))) as [h2| |] eqn:SI; cbn [bind] in H; try discriminate.
+  destruct (deepcopy h2 c) as [[h3 r3]| |] eqn:D2; cbn [bind fst snd] in H; try discriminate.
+  inversion H; subst s' r; clear H. cbn [store heap_of hold].
+  destruct (deepcopy_spec _ _ _ _ D2) as (E2 & _ & _ & _ & tr & T0 & T1).
+  exists (mkBucket b (b_meta bk) (b_events bk ++ [c])), c, tr, (next_id vs).
+  split; [eapply find_bucket_set_bucket; eauto|].
+  split; [cbn; apply in_or_app; cbn; auto|].
+  split; [auto|split; [auto|]].
+  (* the stored copy carries the caller's timestamp and duration and the new id *)
+  destruct (set_id_cases _ _ _ _ SI) as (i0 & t0 & d0 & ks0 & L1 & ->).
+  assert (LC : lookup (update h1 c (Cell (TEv (Some (next_id vs)) t0 d0) ks0)) c
+               = Some (Cell (TEv (Some (next_id vs)) t0 d0) ks0)).
+  { apply lookup_update_same. eapply lookup_lt; eauto. }
+  rewrite (ext_lookup_some _ _ _ _ E2 LC). cbn.
+  (* t0, d0 are those of the original: the copy's top cell has the original's tag *)
+  unfold deepcopy, fuel_of in D1. cbn [dcopy] in D1. rewrite L in D1.
+  destruct (thread (dcopy (length (heap_of s))) (heap_of s) ks) as [[hx ksx]| |]; cbn [bind fst snd] in D1; try discriminate.
+  unfold alloc in D1. inversion D1; subst h1 c. rewrite lookup_alloc_new in L1. inversion L1; subst. reflexivity.
+Qed.
